@@ -14,7 +14,7 @@ import ast
 from sa.model import AnalysisError, FuncInfo
 from sa.ctx import Ctx, short, stmt_key, reaching_defs
 from sa.cfg import NORMAL, describe_path
-from sa.report import Report
+from sa.report import Report, section
 from sa.sides import SideAnalysis, show, canon
 from sa.effects import Effects
 from sa.util import cfg_root, node_has_call, node_stores_attr, has_fact, fact_in
@@ -362,14 +362,14 @@ class C20:
 
 def run(ctx: Ctx, rep: Report, tier: str):
     c = C20(ctx, rep)
-    c.s1()
-    c.s2()
-    c.s3()
-    c.s4()
-    c.s5_s6()
-    c.s7()
-    c.s8_s9()
+    section(rep, c.s1)
+    section(rep, c.s2)
+    section(rep, c.s3)
+    section(rep, c.s4)
+    section(rep, c.s5_s6)
+    section(rep, c.s7)
+    section(rep, c.s8_s9)
     from rules.common import remote_listing_independent_of_local
     rep.rule("C20.S10", "the merged listing reports cloud-only files even when the local folder is gone: the remote half of smart_listdir_path does not depend on the local "
              "listing succeeding", 1)
-    remote_listing_independent_of_local(ctx, rep, "C20.S10")
+    section(rep, lambda: remote_listing_independent_of_local(ctx, rep, "C20.S10"))
